@@ -78,6 +78,8 @@ def _emit(e, err):
             if cfg["rule"] == "TopTwo" and s.round_number == 2 and s.tiebreaks:
                 p = None
             events.append(state_json(s, p, t if cfg["rule"] in ("STV", "IRV", "SequentialRCV") else -1))
+    for k, ev in enumerate(events):
+        ev["rn"] = int(e.election_states[k + 1].round_number) if k + 1 < len(e.election_states) else -1
     if err:
         events.append({"ev": "Error", "class": err})
     vorder0 = []
